@@ -51,7 +51,7 @@ namespace detail {
             f.mutex_ops++;
             if (core.owner == f.id) ::vrt::fail("self-deadlock", "lock() of a non-recursive mutex by its owner");
             if (core.shared_by[f.id]) ::vrt::fail("self-deadlock", "lock() of a mutex the caller holds in shared mode");
-            if (!core.can_acquire_excl()) { f.blocking_ops++; ::vrt::rt().res.blocked_events++; }
+            if (!core.can_acquire_excl()) { f.blocking_ops++; core.contended_by[f.id]++; ::vrt::rt().res.blocked_events++; }
             f.pend = ::vrt::P_LOCK; f.pm = &core;
             ::vrt::point();
             f.pend = ::vrt::P_NONE;
@@ -102,7 +102,7 @@ namespace detail {
             if (core.owner == f.id) ::vrt::fail("self-deadlock", "timed lock of a non-recursive mutex by its owner");
             if (ns >= UNTIL_NS) { lock(); return true; }       // deadline effectively infinitely far away
             f.timeout_fired = false; f.timed = true; f.patience = 80;
-            if (!core.can_acquire_excl()) { f.blocking_ops++; ::vrt::rt().res.blocked_events++; f.patience = draw_patience(); }
+            if (!core.can_acquire_excl()) { f.blocking_ops++; core.contended_by[f.id]++; ::vrt::rt().res.blocked_events++; f.patience = draw_patience(); }
             f.pend = ::vrt::P_TLOCK; f.pm = &core;
             ::vrt::point();
             f.pend = ::vrt::P_NONE; f.timed = false;
@@ -118,7 +118,7 @@ namespace detail {
             ::vrt::Fiber& f = ::vrt::me();
             f.mutex_ops++;
             if (core.owner == f.id) ::vrt::fail("self-deadlock", "lock_shared() by the exclusive owner");
-            if (!core.can_acquire_shared()) { f.blocking_ops++; ::vrt::rt().res.blocked_events++; }
+            if (!core.can_acquire_shared()) { f.blocking_ops++; core.contended_by[f.id]++; ::vrt::rt().res.blocked_events++; }
             f.pend = ::vrt::P_LOCK_SHARED; f.pm = &core;
             ::vrt::point();
             f.pend = ::vrt::P_NONE;
@@ -158,7 +158,7 @@ namespace detail {
             if (core.owner == f.id) ::vrt::fail("self-deadlock", "timed lock_shared by the exclusive owner");
             if (ns >= UNTIL_NS) { lock_shared(); return true; }
             f.timeout_fired = false; f.timed = true; f.patience = 80;
-            if (!core.can_acquire_shared()) { f.blocking_ops++; ::vrt::rt().res.blocked_events++; f.patience = draw_patience(); }
+            if (!core.can_acquire_shared()) { f.blocking_ops++; core.contended_by[f.id]++; ::vrt::rt().res.blocked_events++; f.patience = draw_patience(); }
             f.pend = ::vrt::P_TLOCK_SHARED; f.pm = &core;
             ::vrt::point();
             f.pend = ::vrt::P_NONE; f.timed = false;
@@ -259,7 +259,7 @@ struct condition_variable {
         cv.waiters.erase(cv.waiters.begin() + (long)k);
     }
     // returns true if woken by notify/spurious, false on timeout
-    bool wait_impl(::std::unique_lock<mutex>& lk, bool timed) {
+    bool wait_impl(::std::unique_lock<mutex>& lk, bool timed, bool expired = false) {
         if (!::vrt::rt().cur) return true;
         ::vrt::Fiber& f = ::vrt::me();
         if (!lk.owns_lock() || lk.mutex()->core.owner != f.id)
@@ -281,6 +281,7 @@ struct condition_variable {
             if ((b & 3) == 1) f.spurious_in = (b >> 2) & 15;      // generated spurious wake-up
             else if (timed && b != 0) f.patience = (b >> 3) % 6; // generated time-out
             if (timed && f.patience < 0) f.patience = 80;        // virtual time passes with steps
+            if (timed && expired) f.patience = 0;                 // non-positive duration / deadline already passed: gives up at once
         }
         lk.mutex()->unlock_nopoint();
         f.pend = ::vrt::P_CV; f.pcv = &cv;
@@ -295,18 +296,18 @@ struct condition_variable {
     }
     void wait(::std::unique_lock<mutex>& lk) { wait_impl(lk, false); }
     template<class Pred> void wait(::std::unique_lock<mutex>& lk, Pred pred) { while (!pred()) wait_impl(lk, false); }
-    template<class R, class P> ::std::cv_status wait_for(::std::unique_lock<mutex>& lk, const ::std::chrono::duration<R, P>&) {
-        return wait_impl(lk, true) ? ::std::cv_status::no_timeout : ::std::cv_status::timeout;
+    template<class R, class P> ::std::cv_status wait_for(::std::unique_lock<mutex>& lk, const ::std::chrono::duration<R, P>& d) {
+        return wait_impl(lk, true, !(d > d.zero())) ? ::std::cv_status::no_timeout : ::std::cv_status::timeout;
     }
-    template<class R, class P, class Pred> bool wait_for(::std::unique_lock<mutex>& lk, const ::std::chrono::duration<R, P>&, Pred pred) {
-        while (!pred()) if (!wait_impl(lk, true)) return pred();
+    template<class R, class P, class Pred> bool wait_for(::std::unique_lock<mutex>& lk, const ::std::chrono::duration<R, P>& d, Pred pred) {
+        while (!pred()) if (!wait_impl(lk, true, !(d > d.zero()))) return pred();
         return true;
     }
-    template<class C, class D> ::std::cv_status wait_until(::std::unique_lock<mutex>& lk, const ::std::chrono::time_point<C, D>&) {
-        return wait_impl(lk, true) ? ::std::cv_status::no_timeout : ::std::cv_status::timeout;
+    template<class C, class D> ::std::cv_status wait_until(::std::unique_lock<mutex>& lk, const ::std::chrono::time_point<C, D>& tp) {
+        return wait_impl(lk, true, !(tp > C::now())) ? ::std::cv_status::no_timeout : ::std::cv_status::timeout;
     }
-    template<class C, class D, class Pred> bool wait_until(::std::unique_lock<mutex>& lk, const ::std::chrono::time_point<C, D>&, Pred pred) {
-        while (!pred()) if (!wait_impl(lk, true)) return pred();
+    template<class C, class D, class Pred> bool wait_until(::std::unique_lock<mutex>& lk, const ::std::chrono::time_point<C, D>& tp, Pred pred) {
+        while (!pred()) if (!wait_impl(lk, true, !(tp > C::now()))) return pred();
         return true;
     }
 };
@@ -412,7 +413,7 @@ struct atomic {
         if (lo < last && weak_mode()) {
             ::vrt::rt().res.stale_possible++;
             uint8_t b = ::vrt::rt().aux_byte();
-            idx = last - (int)(b % (uint8_t)(last - lo + 1));
+            idx = last - (int)((unsigned)b % (unsigned)(last - lo + 1));      // (range may exceed 255 after long store histories)
             if (idx != last) ::vrt::rt().res.stale_reads++;
         }
         note_seen(f, idx);
